@@ -299,10 +299,10 @@ def validate_sigkill(n, p, hist, res, bad_factory, stride=1):
 OPS_B = ["add:a", "add:b", "add:c", "addfail", "close", "reopen:same", "reopen:chdir", "reopen:rel", "export:chdir", "clear", "query"]
 
 
-def replay_histories(depth):
+def replay_histories(depth, ops=None):
     out = []
     for d in range(1, depth + 1):
-        for h in itertools.product(OPS_B, repeat=d):
+        for h in itertools.product(ops or OPS_B, repeat=d):
             opened = True
             ok = True
             for op in h:
@@ -379,8 +379,21 @@ def run_replay_history(n, p, mode, hist, props, bad, strat="fnv"):
                     f.export_hex()
                     mem = BloomFilter(n, p, hash_function=hf)
                     mem.add("m")
-                    mem.union(f), mem.intersection(f), mem.jaccard_index(f)
-                    f.union(mem), f.intersection(mem), f.jaccard_index(mem)
+                    u1, i1, j1 = mem.union(f), mem.intersection(f), mem.jaccard_index(f)
+                    u2, i2, j2 = f.union(mem), f.intersection(mem), f.jaccard_index(mem)
+                    if final:
+                        # the same long-lived on-disk object is an operand again and again (also after clear())
+                        disk_cells = list(read_file(path)[:-FOOT.size])
+                        mem_cells = [mem.bloom[i] for i in range(mem.bloom_length)]
+                        want_u = [a | b for a, b in zip(disk_cells, mem_cells)]
+                        want_i = [a & b for a, b in zip(disk_cells, mem_cells)]
+                        for nm, res, want, prop in (("union", u1, want_u, "C12"), ("union", u2, want_u, "C12"),
+                                                    ("intersection", i1, want_i, "C13"), ("intersection", i2, want_i, "C13")):
+                            got = None if res is None else [res.bloom[i] for i in range(res.bloom_length)]
+                            if got != want:
+                                bad(prop, f"disk.{nm}_with_ondisk_operand", {**where, "expected": want, "obs": got})
+                        if j1 != j2:
+                            bad("C13", "disk.jaccard_symmetric", {**where, "ab": j1, "ba": j2})
                     after = (read_file(path), bytes(f), f.elements_added)
                     if final and before != after:
                         bad("C19", "disk.queries_do_not_mutate", {**where})
@@ -490,7 +503,7 @@ def run_replay_history(n, p, mode, hist, props, bad, strat="fnv"):
 
 class DiskSystem(System):
     name = "disk"
-    serves = ("C11", "C01", "C05", "C06", "C14", "C19")
+    serves = ("C11", "C01", "C05", "C06", "C12", "C13", "C14", "C19")
     rule = (
         "BloomFilterOnDisk, geometries (10,0.05) [63 bits: partial last byte] and (3,0.3). Part A: every history of "
         "<= 3 (thorough 4) operations over {add a, add b, add a again, close, export to another path}; every 'line' "
@@ -506,6 +519,12 @@ class DiskSystem(System):
     def configs(self, prop, tier, seed):
         quick = tier == "quick"
         cfgs = []
+        if prop in ("C12", "C13"):
+            # a long-lived on-disk operand: histories over a reduced menu, one depth deeper
+            for n, p in GEOMS:
+                cfgs.append(dict(part="replay", n=n, p=p, mode="abs", strat="fnv", depth=5 if quick else 6,
+                                 ops=["add:a", "add:b", "clear", "query", "close", "reopen:same"], cost=15000))
+            return cfgs
         for n, p in GEOMS:
             if prop == "C11":
                 cfgs.append(dict(part="crash", n=n, p=p, depth=3 if quick else 4, cost=20000 if quick else 200000))
@@ -539,7 +558,7 @@ class DiskSystem(System):
             res.states += 1
             res.transitions += res.extra.get("sigkill_children_compared", 0)
         else:
-            hists = replay_histories(cfg["depth"])
+            hists = replay_histories(cfg["depth"], cfg.get("ops"))
             for h in hists:
                 run_replay_history(cfg["n"], cfg["p"], cfg["mode"], h, props,
                                    bad_factory({"part": "replay", "n": cfg["n"], "p": cfg["p"], "mode": cfg["mode"], "ops": h,
